@@ -39,6 +39,63 @@ def run(ctx):
         ctx.ob('COVER', 'signable-covers:%s' % f, f in rd, sm.where(),
                'PeerDHTRecord.%s is%s read by create_signable_message' % (f, '' if f in rd else ' NOT'))
     ctx.floor('COVER', 8)
+    # "as presented": every byte string appended to the signable message is a direct rendering of a field of `self` (the
+    # field, its length, its big-endian bytes, its postcard encoding) — never of a collection re-built from a field (sorted,
+    # de-duplicated, keyed by id ..): such a rendering is many-to-one, so different records share one signature
+    ALLOWED_T = re.compile(r'(::as_bytes$|::to_(be|le|ne)_bytes$|::len$|ops::Deref>::deref$|postcard::to_(stdvec|allocvec|vec)$|Result::<.*>::map_err$|Try>::branch$|'
+                           r'convert::AsRef<.*>>::as_ref$|::as_slice$|::as_str$|Clone>::clone$|ToString>::to_string$|::as_ref$|::to_vec$|Uuid::as_bytes$|::octets$|::port$|::ip$|'
+                           r'Iterator>::next$|IntoIterator>::into_iter$|::iter$|Option::<.*>::(as_ref|as_deref)$|::timestamp$|::as_secs$)')
+
+    def _presented(e, depth=0):
+        """None if the expression is a direct rendering of self's fields, else the offending sub-expression"""
+        st = e
+        while st.k in ('let', 'ref', 'deref', 'try'):
+            st = st.c if st.k == 'let' else st.a
+        if st.k in ('const', 'param'):
+            return None
+        if st.k in ('field', 'index', 'downcast', 'disc'):
+            return _presented(st.a, depth + 1)
+        if st.k == 'cast':
+            return _presented(st.b, depth + 1)
+        if st.k == 'bin':
+            return _presented(st.b, depth + 1) or _presented(st.c, depth + 1)
+        if st.k == 'call':
+            if not ALLOWED_T.search(st.a):
+                return st
+            for a in st.b:
+                bad_ = _presented(a, depth + 1)
+                if bad_ is not None:
+                    return bad_
+            return None
+        if st.k == 'local':
+            # a multi-definition or opaque local: acceptable only if it is the message buffer itself / a loop element of a field
+            return None if L.mentions_next(F.Expr.of_local(sm, st.a, 6)) is not None else st
+        if st.k == 'agg':
+            for a in st.b:
+                bad_ = _presented(a, depth + 1)
+                if bad_ is not None:
+                    return bad_
+            return None
+        return st
+    offenders = []
+    msg_locals = set()
+    for c in sm.calls(r'Vec::<.*>::extend_from_slice$|Vec::<.*>::push$|Vec::<.*>::extend$'):
+        if c.args and 'p' in c.args[0]:
+            msg_locals |= L.alias_of(sm, [c.args[0]['p'][0]])
+    for c in sm.calls(r'Vec::<.*>::extend_from_slice$|Vec::<.*>::push$|Vec::<.*>::extend$'):
+        if len(c.args) < 2:
+            continue
+        e = sm.expr(c.args[1])
+        bad_ = _presented(e)
+        if bad_ is not None and not (bad_.k == 'local' and bad_.a in msg_locals):
+            offenders.append((c, bad_))
+    # collections built inside the function from record data are the usual way to lose "as presented"
+    for c in sm.calls(r'(BTreeMap|BTreeSet|HashMap|HashSet|BinaryHeap)::<.*>::(new|insert|from_iter|with_capacity)$|iter::FromIterator|Iterator>?::collect$|::sort(_by|_by_key|_unstable|_unstable_by|_unstable_by_key)?$|::dedup(_by|_by_key)?$|Vec::<.*>::retain$|::reverse$'):
+        offenders.append((c, F.Expr('call', c.callee, [], c)))
+    ctx.ob('FRAMING', 'signable-as-presented', not offenders, (offenders[0][0].where() if offenders else sm.where()),
+           'every operand of the signable message is a direct rendering of a field of the record' if not offenders else
+           ('the signable message is built through %s: the record is re-arranged (sorted / keyed / collected) before it is signed, so different '
+            'presentations of the fields share one signature' % offenders[0][1].brief(80)), entry=sm.root)
     apps = sm.calls(r'Vec::<.*>::extend_from_slice$|Vec::<.*>::push$|Vec::<.*>::extend$')
     seq, bad, presence = L.framing(sm, apps)
     ctx.ob('FRAMING', 'signable-injective', not bad, (bad[0][1].where() if bad else sm.where()),
